@@ -103,6 +103,7 @@ Section Main.
     intros z ops zz Si H Hinv. revert Hinv. rewrite run_eq_scalar_lemma by assumption. intros Hinv.
     apply update_eq_textbook_diag.
     - apply Sdiag_state_of.
+    - apply Psym_state_of.
     - intros i Hi. rewrite Sm_state_of by assumption. rewrite Nat.eqb_refl.
       pose proof (spd_svar F _ (reach_spd z ops H) i Hi). lra.
     - exact Hinv.
